@@ -83,7 +83,7 @@ func newUDPRig() *dgramRig {
 	lines := ctr()
 	l := &listener.StatsDUDPListener{Conn: conn, EventHandler: nullHandler{}, Logger: nopLogger, LineParser: p,
 		UDPPackets: ctr(), UDPPacketDrops: ctr(), LinesReceived: lines, EventsFlushed: ctr(),
-		SampleErrors: *prometheus.NewCounterVec(prometheus.CounterOpts{Name: "se"}, []string{"reason"}),
+		SampleErrors:    *prometheus.NewCounterVec(prometheus.CounterOpts{Name: "se"}, []string{"reason"}),
 		SamplesReceived: ctr(), TagErrors: ctr(), TagsReceived: ctr(), UdpPacketQueue: make(chan []byte, 1000)}
 	go l.Listen()
 	c, err := net.DialUDP("udp", nil, conn.LocalAddr().(*net.UDPAddr))
@@ -134,7 +134,7 @@ func frameUnixgram(payload string) string {
 		lines := ctr()
 		l := &listener.StatsDUnixgramListener{Conn: conn, EventHandler: nullHandler{}, Logger: nopLogger, LineParser: p,
 			UnixgramPackets: ctr(), LinesReceived: lines, EventsFlushed: ctr(),
-			SampleErrors: *prometheus.NewCounterVec(prometheus.CounterOpts{Name: "se"}, []string{"reason"}),
+			SampleErrors:    *prometheus.NewCounterVec(prometheus.CounterOpts{Name: "se"}, []string{"reason"}),
 			SamplesReceived: ctr(), TagErrors: ctr(), TagsReceived: ctr()}
 		go l.Listen()
 		c, err := net.DialUnix("unixgram", nil, &net.UnixAddr{Net: "unixgram", Name: path})
@@ -157,7 +157,7 @@ func frameTCP(payload string, sizes []int) string {
 	lines, tooLong := ctr(), ctr()
 	l := &listener.StatsDTCPListener{Conn: tcpLn, EventHandler: nullHandler{}, Logger: nopLogger, LineParser: p,
 		LinesReceived: lines, EventsFlushed: ctr(),
-		SampleErrors: *prometheus.NewCounterVec(prometheus.CounterOpts{Name: "se"}, []string{"reason"}),
+		SampleErrors:    *prometheus.NewCounterVec(prometheus.CounterOpts{Name: "se"}, []string{"reason"}),
 		SamplesReceived: ctr(), TagErrors: ctr(), TagsReceived: ctr(), TCPConnections: ctr(), TCPErrors: ctr(), TCPLineTooLong: tooLong}
 	c, err := net.DialTCP("tcp", nil, tcpLn.Addr().(*net.TCPAddr))
 	must(err)
@@ -234,7 +234,7 @@ func execUdpq(op string) string {
 	packets, drops := ctr(), ctr()
 	l := &listener.StatsDUDPListener{EventHandler: nullHandler{}, Logger: nopLogger, LineParser: p,
 		UDPPackets: packets, UDPPacketDrops: drops, LinesReceived: ctr(), EventsFlushed: ctr(),
-		SampleErrors: *prometheus.NewCounterVec(prometheus.CounterOpts{Name: "se"}, []string{"reason"}),
+		SampleErrors:    *prometheus.NewCounterVec(prometheus.CounterOpts{Name: "se"}, []string{"reason"}),
 		SamplesReceived: ctr(), TagErrors: ctr(), TagsReceived: ctr(), UdpPacketQueue: make(chan []byte, capacity)}
 	buf := make([]byte, 65535)
 	for _, sub := range splitToks(f[3:], ";") {
